@@ -845,6 +845,16 @@ class Exec:
         # renamed or restructured away silently takes its ghost updates with it, and the obligations that then fail would
         # speak about the missing ghost state, not about the code
         wanted = {a for (a, *_r) in list(c.hints) + list(c.late_hints) + list(c.lemmas) + list(c.ghost) + list(c.assumes)}
+        # how many statements of the function carry each anchor (compared with the baseline by the check: when one of two
+        # occurrences is rewritten, the anchor still fires at the other one, but the ghost updates at the first are gone)
+        self.anchor_counts = {}
+        for node in ast.walk(self.fn):
+            if isinstance(node, ast.stmt):
+                a_ = self.stmt_anchor(node)
+                if a_:
+                    for cand in (a_, "before:" + a_[6:]):
+                        if cand in wanted:
+                            self.anchor_counts[cand] = self.anchor_counts.get(cand, 0) + 1
         missing = sorted(a for a in wanted if a not in getattr(self, "fired_anchors", set()))
         if missing:
             raise SpecDrift("contract anchor(s) not found in the code: %s" % "; ".join(missing)[:400])
@@ -1191,6 +1201,11 @@ class Exec:
                            key=lambda n: (n.lineno, n.col_offset))
             for k, n in enumerate(loops):
                 self.loop_index[id(n)] = k
+            self.loop_nested = set()
+            for outer in loops:
+                for inner in ast.walk(outer):
+                    if inner is not outer and isinstance(inner, (ast.While, ast.For)):
+                        self.loop_nested.add(id(inner))
         if stmt is None:
             return None, None
         if id(stmt) not in self.loop_index:
@@ -1323,7 +1338,10 @@ class Exec:
             return out
         # 1. invariants hold on entry
         for item in invs(st):
-            self.oblige(st, "entry", anchor, item[0], item[1], stmt)
+            # the entry of a loop nested in another loop of this function is reached in the middle of an iteration
+            ob_ = self.oblige(st, "entry", anchor, item[0], item[1], stmt)
+            if id(stmt) in getattr(self, "loop_nested", ()):
+                ob_.kind = "entry-nested"      # (the obligation keeps its name .../entry/loopN/...)
         # 2. havoc everything the body may modify
         saved_counter = self.loop_counter
         mods_locals, mods_heap = self.modset(st, body, stmt)
@@ -1487,14 +1505,14 @@ class Exec:
                 self._modset_target(st, e, loc, heap)
         elif isinstance(t, ast.Attribute):
             base = self.static_base(st, t.value)
-            self._mod_field(base, t.attr, "struct", heap)
+            self._mod_field(base, t.attr, "struct", heap, st)
         elif isinstance(t, ast.Subscript):
             inner = t.value
             if isinstance(inner, ast.Name):
                 loc.add(inner.id)
             elif isinstance(inner, ast.Attribute):
                 base = self.static_base(st, inner.value)
-                self._mod_field(base, inner.attr, "content", heap)
+                self._mod_field(base, inner.attr, "content", heap, st)
             elif isinstance(inner, ast.Subscript):
                 # 2-D store a[i][j] = v on a local
                 b = inner.value
@@ -1507,7 +1525,7 @@ class Exec:
         else:
             raise Unsupported("assignment target %s" % type(t).__name__)
 
-    def _mod_field(self, base, attr, how, heap):
+    def _mod_field(self, base, attr, how, heap, st=None):
         attr = attr.lstrip("_")
         if isinstance(base, ObjRef):
             heap.add((base.oid, attr, how))
@@ -1526,6 +1544,28 @@ class Exec:
                 return ("node", v.oid)
             if isinstance(v, NodeList):
                 return ("nodelist", v.oid)
+            # a local bound (once) inside the function to an alias of an object / node / node list, e.g.
+            # `node_p = self.subgraph.nodes[p]` hoisted to the top of a loop body: resolve through its defining expression
+            seen = getattr(self, "_sb_seen", None)
+            top = seen is None
+            if top:
+                seen = self._sb_seen = set()
+            try:
+                if e.id not in seen:
+                    seen.add(e.id)
+                    fn_ast = getattr(self, "fn_inline", None) if self.cur_fn_stack else self.fn
+                    defs = [n for n in ast.walk(fn_ast or self.fn) if isinstance(n, ast.Assign) and len(n.targets) == 1
+                            and isinstance(n.targets[0], ast.Name) and n.targets[0].id == e.id]
+                    others = [n for n in ast.walk(fn_ast or self.fn)
+                              if (isinstance(n, (ast.AugAssign, ast.For)) and isinstance(getattr(n, "target", None), ast.Name)
+                                  and n.target.id == e.id)]
+                    if len(defs) == 1 and not others and isinstance(defs[0].value, (ast.Name, ast.Attribute, ast.Subscript)):
+                        r = self.static_base(st, defs[0].value)
+                        if isinstance(r, ObjRef) or (isinstance(r, tuple) and r[0] in ("node", "nodelist")):
+                            return r
+            finally:
+                if top:
+                    self._sb_seen = None
             return ("local", e.id)
         if isinstance(e, ast.Attribute):
             b = self.static_base(st, e.value)
